@@ -4,12 +4,15 @@
 mod c01;
 mod c01_typed;
 mod c02;
+mod c04;
 mod c05;
 mod c06;
 mod c07;
 mod c08;
 mod c09;
+mod c11;
 mod ggen;
+mod hostile;
 mod sgen;
 mod c13;
 mod c14;
@@ -47,6 +50,7 @@ fn main() {
 		// worker sub-processes: `vcheck worker <PROPERTY> …` (cases that may abort the process)
 		subj::quiet_panics();
 		let code = match args.get(2).map(|s| s.as_str()) {
+			Some("C04") => c04::worker(&args[3..]),
 			Some("C05") => c05::worker(&args[3..]),
 			Some("C09") => c09::worker(&args[3..]),
 			Some("C17") => c17::worker(&args[3..]),
@@ -92,11 +96,13 @@ fn main() {
 		let code = match prop.as_str() {
 			"C01" => c01::replay(&v),
 			"C02" => c02::replay(&v),
+			"C04" => c04::replay(&v),
 			"C05" => c05::replay(&v),
 			"C06" => c06::replay(&v),
 			"C07" => c07::replay(&v),
 			"C08" => c08::replay(&v),
 			"C09" => c09::replay(&v),
+			"C11" => c11::replay(&v),
 			"C13" => c13::replay(&v),
 			"C14" => c14::replay(&v),
 			"C15" => c15::replay(&v),
@@ -116,11 +122,13 @@ fn main() {
 	match prop.as_str() {
 		"C01" => c01::run(&mut rep),
 		"C02" => c02::run(&mut rep),
+		"C04" => c04::run(&mut rep),
 		"C05" => c05::run(&mut rep),
 		"C06" => c06::run(&mut rep),
 		"C07" => c07::run(&mut rep),
 		"C08" => c08::run(&mut rep),
 		"C09" => c09::run(&mut rep),
+		"C11" => c11::run(&mut rep),
 		"C13" => c13::run(&mut rep),
 		"C14" => c14::run(&mut rep),
 		"C15" => c15::run(&mut rep),
